@@ -47,7 +47,7 @@ ASSUMPTIONS = [
     "as a violation of its own kind (the history cannot be evaluated)",
 ]
 PROFILE = {
-    "quick": dict(examples=200, shards=16, budget_s=110),
+    "quick": dict(examples=400, shards=16, budget_s=110),
     "thorough": dict(examples=4000, shards=16, budget_s=1100),
 }
 
